@@ -56,6 +56,18 @@ CHECKS = {
     text="spec/YMerge.tla defines the policy-driven merge (MergeRoot / MergeVal / MergeMaps with the ordered key-insertion rule / plain arrays / Arrays-of-Hashes incl. deep merge by identity key / sets / root insertion by right-hand type, MergeException outcome for the structurally impossible pairs) over document trees. TLC (MC_Merge) enumerates all pairs of generator documents, evaluates the result for the configuration set, checks the laws of C05 (left/right return one side, empty right-hand container is a no-op, left-hand keys keep their order, unique is idempotent, errors exactly for the impossible root pairs) and emits the expected result per group of configurations; MC_MergeAoH does the same for record lists with identity keys. Every (pair, configuration) is replayed into Merger.merge_with and compared on merged data incl. key/element order, or on the error class.",
     note="Trusted: TLC; YMerge as the reading of the yaml-merge usage text and policy enum docstrings (the position of new keys follows the code's buffer rule: documentation silent). Bounds: quick = documents of <= 3 nodes per side (23k pairs) x 21 configurations (one dimension at a time + 6 combinations) + record lists 2x2; thorough = <= 4 nodes, and the full 180-configuration product on <= 3 nodes. Per-path rule/key overrides are not yet exercised (see DESIGN section 8).",
     technique="TLA+ merge semantics + laws checked by TLC over enumerated pairs, S->C replay", ref="4/C05"),
+ "C10": dict(
+    text="spec/YMerge.tla ResolveAnchors (stop / left / right / rename with the unique-name rule) followed by MergeRoot defines the result; TLC (MC_Merge with anchors) enumerates pairs of documents that define and alias scalar anchors from a shared name pool - equal-name/equal-value, equal-name/different-value and disjoint cases - crossed with the four anchor policies and six merge-policy combinations, and checks the laws of C10 as invariants (stop refuses exactly on a conflict, every name reads one value in the result, left/right pick that side's value). Each case is replayed into Merger.merge_with (the two documents spelled differently in half of the cases); merged data, the anchor relations on the real result, and dump + strict re-load (duplicate or undefined anchors are loader errors) are compared.",
+    note="Trusted: TLC; YMerge; yamlpath's strict loader. Where an anchor sits among equal values is not compared (not part of the statement). Bounds: quick = documents <= 3 nodes, one anchor name (+ a list-only family with the names A and A_1 for rename uniqueness); thorough = two names everywhere.",
+    technique="TLA+ anchor-resolution + merge semantics with laws checked by TLC, S->C replay incl. dump/reload", ref="4/C10"),
+ "C11": dict(
+    text="spec/YMerge.tla MergeAt: the targets are what the path selects in the left document (Sel of YQuery); each becomes MergeRoot(target, rhs); a missing straight key/index path is created to hold rhs (CreatePathT of YEdit); a path that matches nothing and cannot be created is a merge error. TLC (MC_MergeAt) enumerates left documents x target paths (root, existing single, several via wildcard/search, missing creatable / non-creatable, one and two segments) x right documents of every root type x six policy combinations and checks the frame law; each case is replayed through args.mergeat and the WHOLE merged document is compared with the model, or the error outcome.",
+    note="Trusted: TLC; YMerge/YEdit/YQuery. Dead branches, nested targets, null targets and creation under a Set are informational. The CLI's no-partial-write-out clause is decided by C17's pre-write failure causes.",
+    technique="TLA+ targeted-merge semantics + frame law checked by TLC, S->C replay", ref="4/C11"),
+ "C18": dict(
+    text="spec/YMultiDoc.tla models the three multi-document drivers of yaml-merge (condense_all, merge_across, matrix_merge) and main()'s per-file feeding as a step function with one event per pairwise merge in loop order; documents are modelled as provenance sequences, as marker content under the C05 policies, and as an object graph (by-reference vs copied right-hand documents). TLC checks the output-count/order theorems completely for stream lengths 1..4 x 1..4 x 3 modes and that the pinned by-reference matrix design violates RhsPristine/Terminates. Real runs (library route and yaml_merge.main() in-process, files and stdin) are recorded by wrapping Merger.merge_with and validated by TLC (Trace_YMultiDoc folds the same step function); outputs are judged on number, order and provenance.",
+    note="Trusted: TLC; the marker-key reading of provenance; the recorder wrappers.",
+    technique="TLA+ driver state machine checked by TLC + C->S trace validation of recorded pairwise merges", ref="4/C18"),
 }
 NA_REASON = "check not built yet in this round (specification family under construction; see DESIGN.md section 9)"
 def main():
